@@ -242,7 +242,7 @@ func checkData(sp *spec, data []nv) (canon []nv, sorts int, fs []*fail) {
 	level, class := classify(sp.mode, ks, vs)
 	var first, firstIn []nv
 	ok := true
-	forEachPerm(len(data), func(p []int) bool {
+	forEachDataPerm(len(data), func(p []int) bool {
 		in := permuted(data, p)
 		s, f := sp.fresh()
 		if f != nil {
@@ -260,7 +260,7 @@ func checkData(sp *spec, data []nv) (canon []nv, sorts int, fs []*fail) {
 			return true
 		}
 		if !same(out, first) {
-			fs = append(fs, failf("C13/"+level+"/order-depends-on-permutation/"+class,
+			fs = append(fs, failf("C13/"+level+"/order-depends-on-permutation/"+sigClass(class),
 				"sort %q: the same data handed over in two orders sorts to two different sequences\n  in %s -> %q\n  in %s -> %q", sp.name, show(firstIn), names(first), show(in), names(out)))
 			ok = false
 			return false
@@ -279,7 +279,7 @@ func checkData(sp *spec, data []nv) (canon []nv, sorts int, fs []*fail) {
 		if sp.desc {
 			dir = "descending"
 		}
-		fs = append(fs, failf("C13/"+level+"/wrong-order/"+class, "sort %q (%s): %s: %s -> %q", sp.name, dir, msg, show(data), names(first)))
+		fs = append(fs, failf("C13/"+level+"/wrong-order/"+sigClass(class), "sort %q (%s): %s: %s -> %q", sp.name, dir, msg, show(data), names(first)))
 	}
 	return first, sorts, fs
 }
@@ -310,7 +310,7 @@ func checkDirections(group []*spec, canon map[*spec][]nv, data []nv) []*fail {
 		}
 		if !same(c, want) {
 			level, class := classify(sp.mode, ks, vs)
-			fs = append(fs, failf("C13/"+level+"/reverse-mismatch/"+class, "sort %q gives %q but %q gives %q for %s: same direction must agree, opposite direction must be the exact reverse", ref.name, names(canon[ref]), sp.name, names(c), show(data)))
+			fs = append(fs, failf("C13/"+level+"/reverse-mismatch/"+sigClass(class), "sort %q gives %q but %q gives %q for %s: same direction must agree, opposite direction must be the exact reverse", ref.name, names(canon[ref]), sp.name, names(c), show(data)))
 		}
 	}
 	return fs
@@ -349,7 +349,7 @@ func checkReuse(sp *spec, earlier, data, canon []nv, relation string) (sorts int
 			case "month-same-position":
 				class = "all-month"
 			}
-			f = failf("C13/"+level+"/order-depends-on-earlier-sort/"+class,
+			f = failf("C13/"+level+"/order-depends-on-earlier-sort/"+sigClass(class),
 				"sort %q: a sorter instance that first sorted %s (%s) sorts %s to %q; a fresh instance sorts every permutation of it to %q", sp.name, show(earlier), relation, show(in), names(out), names(canon))
 			return false
 		}
@@ -403,7 +403,7 @@ func checkPair(sp *spec, a, b nv) *fail {
 	}
 	if x == y {
 		level, class := classOf(sp, a, b)
-		return failf("C13/"+level+"/distinct-keys-not-strictly-ordered/"+class, "sort %q: less(%q,%q)=%v and less(%q,%q)=%v (values %d,%d): the two keys have no fixed order", sp.name, pool[a.k].s, pool[b.k].s, x, pool[b.k].s, pool[a.k].s, y, a.v, b.v)
+		return failf("C13/"+level+"/distinct-keys-not-strictly-ordered/"+sigClass(class), "sort %q: less(%q,%q)=%v and less(%q,%q)=%v (values %d,%d): the two keys have no fixed order", sp.name, pool[a.k].s, pool[b.k].s, x, pool[b.k].s, pool[a.k].s, y, a.v, b.v)
 	}
 	return nil
 }
@@ -423,7 +423,7 @@ func checkTriple(sp *spec, a, b, c nv) *fail {
 		return f
 	}
 	level, class := classOf(sp, a, b, c)
-	return failf("C13/"+level+"/non-transitive/"+class, "sort %q: %q < %q and %q < %q but not %q < %q (values %d,%d,%d)", sp.name, pool[a.k].s, pool[b.k].s, pool[b.k].s, pool[c.k].s, pool[a.k].s, pool[c.k].s, a.v, b.v, c.v)
+	return failf("C13/"+level+"/non-transitive/"+sigClass(class), "sort %q: %q < %q and %q < %q but not %q < %q (values %d,%d,%d)", sp.name, pool[a.k].s, pool[b.k].s, pool[b.k].s, pool[c.k].s, pool[a.k].s, pool[c.k].s, a.v, b.v, c.v)
 }
 
 // checkHistory: S2 "the same way every time" — the decision for (a,b) of an
@@ -446,7 +446,7 @@ func checkHistory(sp *spec, c, d, a, b nv) *fail {
 	}
 	if got != want {
 		level, class := classOfEx(sp, false, a, b, c, d)
-		return failf("C13/"+level+"/decision-depends-on-earlier-comparison/"+class, "sort %q: a fresh instance says less(%q,%q)=%v; an instance that compared (%q,%q) before says %v", sp.name, pool[a.k].s, pool[b.k].s, want, pool[c.k].s, pool[d.k].s, got)
+		return failf("C13/"+level+"/decision-depends-on-earlier-comparison/"+sigClass(class), "sort %q: a fresh instance says less(%q,%q)=%v; an instance that compared (%q,%q) before says %v", sp.name, pool[a.k].s, pool[b.k].s, want, pool[c.k].s, pool[d.k].s, got)
 	}
 	return nil
 }
